@@ -19,7 +19,7 @@ from ..rules import call_sites
 from ..mutate import mutate, remove_stmts, replace_stmt, replace_expr, parse_stmt, parse_expr
 from ..model import AnalysisError
 from ..x_scope import own_nodes
-from ..x_flow import check_default_only_for_none, check_exact, param_value_flow, DEFAULT
+from ..x_flow import check_default_only_for_none, check_exact, param_value_flow, DEFAULT, derivation, resolve_local, expand_locals, expanded_facts, concrete_paths
 
 TECHNIQUE = "table extraction + exception-escape lint on the dispatch parsers + guard-dominance / path-sensitive exploration of the command-line and config paths"
 EXPLANATION = (
@@ -213,7 +213,13 @@ def rule_command_line(ck):
         raise AnalysisError("parse_command_line looks options up with .get(): unknown idiom for the unknown-option rule")
     subs = [n for n in own_nodes(fi.node) if isinstance(n, ast.Subscript) and q.dotted(n.value) == opts]
     ck.floor("C44.unknown-option", len(subs), 1, "option lookups")
-    member = "%s in %s" % (name, opts)
+    keys = {q.dotted(sb.slice) for sb in subs}
+    if len(keys) != 1 or None in keys:
+        raise AnalysisError("parse_command_line: option lookups do not use one local key name")
+    keyname = keys.pop()
+    member = "%s in %s" % (keyname, opts)
+    sub_nodes = {nd.id for sb in subs for nd in cfg.nodes_for(sb)}
+    dropped = {}
     parses = call_sites(fi, ".parse")
     ck.floor("C44.missing-value", len(parses), 1, "option.parse call sites")
     parse_ids = {n.id for n, _c in parses}
@@ -221,14 +227,21 @@ def rule_command_line(ck):
     istype = None
 
     def tr(n, v):
-        unknown, noval = v
+        unknown, noval, pending = v
         if unknown and (n.kind == "for" or n.id in parse_ids or n.id == cfg.exit.id or (n.kind == "stmt" and isinstance(n.ast, (ast.Return, ast.Continue, ast.Break)))):
             bad_unknown[n.id] = n
             return None
-        return v
+        if pending and (n.kind == "for" or (n.kind == "stmt" and isinstance(n.ast, ast.Return))):
+            dropped[n.id] = n
+            pending = False
+        if n.id in sub_nodes:
+            pending = True
+        if n.id in parse_ids:
+            pending = False
+        return (unknown, noval, pending)
 
     def edge(n, kind, v):
-        unknown, noval = v
+        unknown, noval, pending = v
         if n.kind == "test" and kind in ("true", "false"):
             t, pol = canon_fact(n.ast, kind == "true")
             if t == member:
@@ -236,11 +249,11 @@ def rule_command_line(ck):
             if t == equals:
                 noval = not pol
         if n.kind == "for":
-            return (False, None)
-        return (unknown, noval)
+            return (False, None, False)
+        return (unknown, noval, pending)
 
     track_types = lambda t: t.endswith(".type == bool") or t.endswith(".type is bool")
-    seen = explore(cfg, (False, None), tr, track_types, edge_transfer=edge, follow_exc=True, exc_effect=False)
+    seen = explore(cfg, (False, None, False), tr, track_types, edge_transfer=edge, follow_exc=False, exc_effect=False)
     tests = [n for n in cfg.stmt_nodes(lambda n: n.kind == "test" and canon_fact(n.ast, True)[0] == member)]
     if tests:
         for tnode in tests:
@@ -252,7 +265,7 @@ def rule_command_line(ck):
             ck.ob("C44.unknown-option", fi, s, isinstance(s.ctx, ast.Load), "unknown names fail in the option lookup (KeyError)")
     # missing value only for bool
     for node, c in parses:
-        for facts, (unknown, noval) in sorted(seen.get(node.id, ()), key=repr):
+        for facts, (unknown, noval, _pend) in sorted(seen.get(node.id, ()), key=repr):
             if noval is None:
                 raise AnalysisError("parse_command_line: option.parse is reached without testing whether `=value` was given (unknown idiom)")
             if noval:
@@ -260,10 +273,25 @@ def rule_command_line(ck):
                 ck.ob("C44.missing-value", fi, c, isbool, "`--name` without `=value` is accepted only for bool options (others must raise)", construct="no-value isbool=%s" % isbool)
             else:
                 ck.ob("C44.missing-value", fi, c, True, "`--name=value` path reaches option.parse", construct="with-value")
-        ck.ob("C44.missing-value", fi, c, len(c.args) == 1 and q.dotted(c.args[0]) == value, "the text parsed is the part after `=`")
-    # the name looked up is the normalised text before `=`
-    for s in subs:
-        ck.ob("C44.unknown-option", fi, s, q.dotted(s.slice) == name, "the option looked up is the name before `=`")
+        if len(c.args) != 1:
+            raise AnalysisError("option.parse() is not called with exactly the value text")
+        chains = derivation(fi, c.args[0], lambda e: False)
+        okv = True
+        for ch in chains:
+            if ch and ch[0].op == "const" or (len(ch) == 1 and ch[0].op == "const"):
+                continue
+            ops = [(st_.op, st_.detail) for st_ in ch]
+            okv = okv and any(ops[i] == ("unpack", "2") and ops[i + 1][0] == ".partition" and ops[i + 1][1] == "'='" for i in range(len(ops) - 1))
+        ck.ob("C44.missing-value", fi, c, okv, "the text parsed is the part after the first `=`")
+    ck.ob("C44.missing-value", fi, fi.node, not dropped, "a recognised option is always parsed (or rejected) before the scan moves on: no path looks the option up and then drops it", construct="option-dropped")
+    # the name looked up is the (normalised) text before `=`
+    for sb in subs:
+        chains = derivation(fi, sb.slice, lambda e: False)
+        okn = bool(chains)
+        for ch in chains:
+            ops = [(st_.op, st_.detail) for st_ in ch]
+            okn = okn and any(ops[i] == ("unpack", "0") and ops[i + 1][0] in (".partition",) and ops[i + 1][1] == "'='" for i in range(len(ops) - 1))
+        ck.ob("C44.unknown-option", fi, sb, okn, "the option looked up is the name before `=`")
 
 
 def _subst_calls(e, table):
@@ -629,6 +657,7 @@ MUTANTS = [
     ("range syntax applied to every multiple option", _m("_Option.parse", replace_expr(lambda n: isinstance(n, ast.Call) and _src(n).startswith("issubclass(self.type"), lambda n: parse_expr("':' in part"))), "C44.whole-text"),
     ("command-line scan skips the first option", _m("OptionParser.parse_command_line", replace_expr(lambda n: isinstance(n, ast.Call) and _src(n) == "range(1, len(args))", lambda n: parse_expr("range(2, len(args))"))), "C44.whole-text"),
     ("value split at the last '='", _m("OptionParser.parse_command_line", replace_expr(lambda n: isinstance(n, ast.Attribute) and n.attr == "partition", lambda n: ast.Attribute(value=n.value, attr="rpartition", ctx=ast.Load()))), "C44.value-exact"),
+    ("empty values silently skipped (`if value:` around parse)", _m("OptionParser.parse_command_line", replace_stmt(lambda st: isinstance(st, ast.Expr) and _src(st) == "option.parse(value)", lambda st: [parse_stmt("if value:\n    option.parse(value)")])), "C44.missing-value"),
     ("unknown command-line option silently ignored", _m("OptionParser.parse_command_line", _ignore_unknown), "C44.unknown-option"),
     ("datetime parser returns its input when no format matches", _m("_Option._parse_datetime", replace_stmt(lambda st: isinstance(st, ast.Raise), lambda st: [parse_stmt("return value")])), ("C44.rejecting-path", "C44.no-passthrough")),
     ("timedelta parser accepts a valid prefix and ignores trailing garbage", _m("_Option._parse_timedelta", replace_stmt(lambda st: isinstance(st, ast.Raise) and st.exc is not None, lambda st: [ast.Break()])), "C44.rejecting-path"),
